@@ -5,6 +5,8 @@ from pyvc import values as V, engine as E, interp as I, vc
 from contracts import common_parse as CP, common_base as CB
 from checks import census, common
 CP.register(); CB.register(); common.setup()
+from pyvc import frame as F
+F.BOUNDS[("ParserBinary._parse_parsable_derived_array", 0)] = 2
 try:
     from contracts import register_all
     register_all()
